@@ -143,11 +143,19 @@ func (c *FnCtx) call0(fr *frame, st *State, guard string, site ssa.Instruction, 
 		return c.inlineCall(fr, st, cv.fn, c.argVals(fr, cc), cv, site)
 	}
 	name := callee.String()
+	key := funcKey(callee)
+	atDone := false
+	if fr.top && fr.con != nil && len(fr.con.AtCall) > 0 {
+		// caller-side obligations also apply to calls the engine models itself (standard library)
+		c.atCall(fr, st, key[strings.LastIndex(key, "::")+2:], c.argVals(fr, cc)...)
+		atDone = true
+	}
 	if r, handled := c.stdModel(fr, st, site, name, cc); handled {
 		return r
 	}
-	key := funcKey(callee)
-	c.atCall(fr, st, key[strings.LastIndex(key, "::")+2:], c.argVals(fr, cc)...)
+	if !atDone {
+		c.atCall(fr, st, key[strings.LastIndex(key, "::")+2:], c.argVals(fr, cc)...)
+	}
 	if con := c.eng.contractFor(key, c.prof); con != nil && !con.Inline {
 		return c.applyContract(fr, st, callee.Signature, con, paramNames(callee), c.argVals(fr, cc), key, callee.Pkg.Pkg)
 	}
@@ -609,6 +617,14 @@ func (c *FnCtx) atCall(fr *frame, st *State, callee string, args ...interface{})
 		return
 	}
 	cls := fr.con.AtCall[callee]
+	// at_call Callee#k: only the k-th call site of Callee in the function (in source order)
+	if ord := c.callSiteOrdinal(fr.fn, callee); ord > 0 {
+		key := fmt.Sprintf("%s#%d", callee, ord)
+		if more := fr.con.AtCall[key]; len(more) > 0 {
+			cls = append(append([]Clause{}, cls...), more...)
+			fr.atCallSeen[key]++
+		}
+	}
 	if len(cls) == 0 {
 		return
 	}
@@ -625,4 +641,62 @@ func (c *FnCtx) atCall(fr *frame, st *State, callee string, args ...interface{})
 		// a proved cut point: the fact may be used from here on
 		c.assume(st.g, goal)
 	}
+}
+
+// callSiteOrdinal: 1-based position (source order) of the call site being executed among all static call sites of
+// the callee (by short name) in fn; 0 if unknown.
+func (c *FnCtx) callSiteOrdinal(fn *ssa.Function, callee string) int {
+	type site struct {
+		pos  string
+		line int
+		col  int
+	}
+	var sites []site
+	seen := map[string]bool{}
+	for _, b := range fn.Blocks {
+		for _, ins := range b.Instrs {
+			var cc *ssa.CallCommon
+			switch x := ins.(type) {
+			case *ssa.Call:
+				cc = x.Common()
+			case *ssa.Defer:
+				cc = x.Common()
+			case *ssa.Go:
+				cc = x.Common()
+			}
+			if cc == nil {
+				continue
+			}
+			name := ""
+			if cc.IsInvoke() {
+				if n, ok := cc.Value.Type().(*types.Named); ok {
+					name = n.Obj().Name() + "." + cc.Method.Name()
+				}
+			} else if sc := cc.StaticCallee(); sc != nil {
+				k := funcKey(sc)
+				name = k[strings.LastIndex(k, "::")+2:]
+			}
+			if name != callee {
+				continue
+			}
+			p := c.eng.prog.Fset.Position(ins.Pos())
+			if seen[p.String()] {
+				continue
+			}
+			seen[p.String()] = true
+			sites = append(sites, site{p.String(), p.Line, p.Column})
+		}
+	}
+	sort.Slice(sites, func(i, j int) bool {
+		if sites[i].line != sites[j].line {
+			return sites[i].line < sites[j].line
+		}
+		return sites[i].col < sites[j].col
+	})
+	for i, s := range sites {
+		if s.pos == c.curPos {
+			return i + 1
+		}
+	}
+	return 0
 }
